@@ -476,6 +476,14 @@ pub fn replay_net(ctx: &NetCtx, c: &Value, rep: &mut Report) {
             hdev.insert((d["q"].as_u64().unwrap() as usize - 1, d["i"].as_u64().unwrap() as usize - 1), d);
         }
     }
+    // Options.tla binding: is the line a rule at all?
+    if let Some(want) = c.get("parse_ok").and_then(|b| b.as_bool()) {
+        rep.evaluations += 1;
+        let got = guarded(|| adblock::lists::parse_filter(&rules[0], true, ParseOptions::default()).is_ok());
+        if got != Ok(want) {
+            rep.mismatch(json!({"what": "option-parse", "rules": rules, "observed": format!("{:?}", got), "allowed": [format!("Ok({})", want)], "devs": []}));
+        }
+    }
     let mut nontrivial = false;
     let reload = c.get("reload").and_then(|m| m.as_bool()).unwrap_or(false);
     let wire = c.get("wire").and_then(|w| w.as_array()).and_then(|a| a.get(0));
